@@ -311,6 +311,12 @@ def Split.runTrace (s : Split σ S C) (st0 : Store C) (flow : List (Item S)) : L
   let f := finalPass r.2.2.2 r.2.2.1.st r.2.1
   (r.1 ++ f.1, f.2)
 
+/-- what `split.run(flow)` yields and the heap afterwards: `__init__` rebinds `run` to `_empty_run` when
+`seqs` is empty (split.py:223-224, 275-278: `for val in flow: yield val` — the values themselves) -/
+def Split.run (s : Split σ S C) (st0 : Store C) (flow : List (Item S)) : List (Item S) × Store C :=
+  if s.branches.isEmpty then (flow, st0)
+  else (outputs (s.runTrace st0 flow).1, (s.runTrace st0 flow).2)
+
 /-! ## `Split._fill`, `Zip._fill`, `_compute`, `_request` -/
 
 /-- result of filling one value into the branches of a `Split` / `Zip` -/
@@ -379,6 +385,10 @@ whose context is the last cell -/
 structure Skel where
   data : Option Value
   hasCtx : Bool
+  /-- for a *group* (a list of flow values, as `StoreFilled(yield_as_a_group=True)` and `GroupBy` yield):
+  the skeletons `(data, hasCtx)` of its members; the first cell is the list object, then the cells of
+  the members follow in order -/
+  parts : List (Option Value × Bool) := []
   deriving Repr
 
 abbrev HItem := Item Skel
@@ -393,6 +403,12 @@ def HItem.withCtx (x : HItem) (c : Tok) : HItem :=
 /-- a value with immutable data `d`; `c = none`: bare data -/
 def mkItem (d : Value) (c : Option Tok) : HItem :=
   { skel := { data := some d, hasCtx := c.isSome }, cells := c.toList }
+
+/-- a group: the list object `l` holding the values `members` -/
+def mkGroup (l : Tok) (members : List HItem) : HItem :=
+  { skel := { data := some (.str "<group>"), hasCtx := false,
+              parts := members.map (fun m => (m.skel.data, m.skel.hasCtx)) },
+    cells := l :: cellsOf members }
 
 /-- private part of the world during one invocation: heap + allocation counter of the object's own
 namespace -/
@@ -438,6 +454,28 @@ def ctxOf : Value → Ctx
 /-- `not context` -/
 def ctxEmpty (v : Value) : Bool := (ctxOf v).isEmpty
 
+/-! Python's `==` on plain values (dictionaries compare without regard to the order of insertion) -/
+mutual
+def Value.eqv : Value → Value → Bool
+  | .int a, .int b => a == b
+  | .str a, .str b => a == b
+  | .quot a b, .quot c d => a == c && b == d
+  | .list xs, .list ys => eqvList xs ys
+  | .tup xs, .tup ys => eqvList xs ys
+  | .dict kvs, .dict kvs' => kvs.length == kvs'.length && eqvKvs kvs kvs'
+  | _, _ => false
+def eqvList : List Value → List Value → Bool
+  | [], [] => true
+  | x :: xs, y :: ys => Value.eqv x y && eqvList xs ys
+  | _, _ => false
+def eqvKvs : List (String × Value) → List (String × Value) → Bool
+  | [], _ => true
+  | (k, v) :: rest, l =>
+    (match l.lookup k with
+      | some v' => Value.eqv v v'
+      | none => false) && eqvKvs rest l
+end
+
 /-- `data, context = lena.flow.get_data_context(value)`: the context object of a pair; for a bare
 value a new `{}` -/
 def getCtx (ns : Nat) (x : HItem) : M Tok :=
@@ -457,6 +495,8 @@ def maybeWithContext (d : Value) (c : Tok) : M HItem := do
 inductive SumSeq where
   /-- `Mean(Sum())` -/
   | sum
+  /-- `Mean(DSum())` -/
+  | dsum
   /-- `Mean(Split([Sum(), Count(name)]))`: yields the sum and `(count, {name: count})` -/
   | sumCount (name : String)
   deriving Repr, DecidableEq
@@ -480,6 +520,14 @@ inductive AccKind where
   | reqSum
   /-- a user fill/request element: `request` yields the stored values themselves and forgets them -/
   | reqStore
+  /-- `Vectorize([Sum(), Mean()])` -/
+  | vecList
+  /-- `lena.structures.Graph()` (`fill`/`compute`, contexts without "scale") -/
+  | graph
+  /-- `StoreFilled(yield_as_a_group=True)`: yields a new list of the filled values -/
+  | storeGroup
+  /-- `GroupBy(key)`: yields its internal lists of the filled values, one per value of `context[key]` -/
+  | groupBy (key : String)
   deriving Repr, DecidableEq
 
 /-- state of an accumulator: `_total`/`_sum`, `_count`/`count`, `_cur_context` (`none`: the `{}` that
@@ -489,9 +537,16 @@ structure AccSt where
   count : Nat := 0
   cur : Option Tok := none
   group : List HItem := []
+  /-- `GroupBy.groups`: key ↦ (the list object, its members), in insertion order -/
+  groups : List (Option Value × Tok × List HItem) := []
   deriving Repr
 
-def AccSt.refs (s : AccSt) : List Tok := s.cur.toList ++ cellsOf s.group
+/-- the objects of `GroupBy.groups` -/
+def groupsCells : List (Option Value × Tok × List HItem) → List Tok
+  | [] => []
+  | g :: rest => g.2.1 :: cellsOf g.2.2 ++ groupsCells rest
+
+def AccSt.refs (s : AccSt) : List Tok := s.cur.toList ++ cellsOf s.group ++ groupsCells s.groups
 
 /-- the integer data of a value (the harness fills integers; a mutable list counts as 0) -/
 def dataInt (x : HItem) : Int :=
@@ -505,6 +560,23 @@ def curTok (ns : Nat) (s : AccSt) : M Tok :=
   match s.cur with
   | some c => pure c
   | none => allocM ns (.dict [])
+
+/-- equality of `GroupBy` keys (`to_string` of the selected sub-context) -/
+def keyEq : Option Value → Option Value → Bool
+  | none, none => true
+  | some a, some b => Value.eqv a b
+  | _, _ => false
+
+/-- `key in self.groups` -/
+def groupFind (k : Option Value) : List (Option Value × Tok × List HItem) → Bool
+  | [] => false
+  | g :: rest => keyEq k g.1 || groupFind k rest
+
+/-- `self.groups[key].append(val)` -/
+def groupAppend (k : Option Value) (x : HItem) : List (Option Value × Tok × List HItem) →
+    List (Option Value × Tok × List HItem)
+  | [] => []
+  | g :: rest => if keyEq k g.1 then (g.1, g.2.1, g.2.2 ++ [x]) :: rest else g :: groupAppend k x rest
 
 /-- `fill(value)` of the accumulators -/
 def accFill (ns : Nat) (k : AccKind) (s : AccSt) (x : HItem) : M AccSt :=
@@ -536,9 +608,27 @@ def accFill (ns : Nat) (k : AccKind) (s : AccSt) (x : HItem) : M AccSt :=
     if dataInt x < lo || dataInt x ≥ hi then pure s
     -- subarr.fill(val); self._cur_context = context
     else pure { s with total := s.total + dataInt x, cur := some d }
-  | .store | .keepLast | .reqStore =>
+  | .store | .keepLast | .reqStore | .storeGroup =>
     -- self.group.append(value)
     pure { s with group := s.group ++ [x] }
+  | .vecList | .graph => do
+    -- Vectorize.fill: seq.fill(data[ind]) …; self._cur_context = context
+    -- Graph.fill: point, self._cur_context = get_data_context(value); self._points.append(point)
+    let c ← getCtx ns x
+    pure { s with count := s.count + 1, cur := some c }
+  | .groupBy key => do
+    -- context = get_context(val); key = to_string(self._iet.get(context));
+    -- if key in self.groups: self.groups[key].append(val) else: self.groups[key] = [val]
+    let k ← (match x.ctxTok with
+      | some c => do
+        let v ← readM c
+        pure ((ctxOf v).lookup key)
+      | none => pure none)
+    match groupFind k s.groups with
+    | true => pure { s with groups := groupAppend k x s.groups }
+    | false => do
+      let l ← allocM ns (.list [])
+      pure { s with groups := s.groups ++ [(k, l, [x])] }
 
 /-- `context["variable"] = {"name": name}` (`Variable._update_context` for an untyped variable on a
 context without typed variable) -/
@@ -609,9 +699,43 @@ def accCompute (ns : Nat) (k : AccKind) (s : AccSt) : M (AccSt × Resp Skel) :=
     -- yield (hist, copy.deepcopy(cur_context))
     let d ← copyM ns c
     pure ({ s with cur := some c }, { outs := [mkItem (.str "hist") (some d)] })
+  | .vecList =>
+    -- zip_longest(Sum.compute(), Mean.compute()): Mean raises when nothing was filled
+    if s.count = 0 then pure (s, { err := some "LenaZeroDivisionError" })
+    else do
+      let c ← curTok ns s
+      let d ← copyM ns c
+      let y ← maybeWithContext (.str "vec") d
+      pure ({ s with cur := some c }, { outs := [y] })
+  | .graph => do
+    -- _update: self._context = copy.deepcopy(self._cur_context); self._context.update(self._init_context);
+    -- self._context.update({"scale": self._scale}); if self._points: self._context["dim"] = self.dim
+    let c ← curTok ns s
+    let d ← copyM ns c
+    updM d (fun v => .dict (dictSet (ctxOf v) "scale" (.str "None")))
+    (if s.count = 0 then pure () else updM d (fun v => .dict (dictSet (ctxOf v) "dim" (.int 1))))
+    -- yield (self, self._context)
+    pure ({ s with cur := some c }, { outs := [mkItem (.str "graph") (some d)] })
+  | .storeGroup => do
+    -- yield self.group[:]
+    let l ← allocM ns (.list [])
+    pure (s, { outs := [mkGroup l s.group] })
+  | .groupBy _ =>
+    -- for grp in self.groups.values(): yield grp
+    pure (s, { outs := s.groups.map (fun g => mkGroup g.2.1 g.2.2) })
   | .store => pure (s, { outs := s.group })
   | .keepLast => pure (s, { outs := s.group.getLast?.toList })
   | .reqStore => pure ({ s with group := [] }, { outs := s.group })
+
+/-- the accumulators whose `compute` allocates everything it yields; the others yield the filled values
+themselves, which is their documented result -/
+def AccKind.fresh : AccKind → Bool
+  | .store | .keepLast | .reqStore | .storeGroup | .groupBy _ => false
+  | _ => true
+
+/-- `reset()` of the accumulators: sums and counts to zero, `_cur_context = {}` (a new dictionary), the stored
+values forgotten (`StoreFilled.reset`, `GroupBy.reset`) -/
+def accReset (_ : AccSt) : AccSt := {}
 
 /-! ## per-value elements that mutate data and context in place -/
 
@@ -626,6 +750,8 @@ inductive Step where
   | tag (name : String)
   /-- user element: `if isinstance(data, list): data.append(v)` -/
   | app (v : Int)
+  /-- user element: `if isinstance(data, dict): data[key] = v` -/
+  | setd (key : String) (v : Int)
   /-- `lena.flow.Count(name)` -/
   | count (name : String)
   /-- `lena.flow.Slice(n)` in a fill sequence: `LenaStopFill` when value number `n` arrives -/
@@ -667,6 +793,16 @@ def addTag (name : String) (v : Value) : Value :=
   | some t => .dict (dictSet top "tags" (.list (listOf t ++ [.str name])))
   | none => .dict (dictSet top "tags" (.list [.str name]))
 
+/-- `if isinstance(data, list): data.append(v)` -/
+def appendIfList (v : Int) : Value → Value
+  | .list xs => .list (xs ++ [.int v])
+  | o => o
+
+/-- `if isinstance(data, dict): data[key] = v` -/
+def setIfDict (key : String) (v : Int) : Value → Value
+  | .dict kvs => .dict (dictSet kvs key (.int v))
+  | o => o
+
 /-- `getter(data)` of the harness variables -/
 def getter : Option Value → Option Value
   | some (.int i) => some (.int (i + 1))
@@ -703,7 +839,13 @@ def applyStep (ns : Nat) (e : Step) (n : Nat) (x : HItem) : M (Nat × Option HIt
   | .app v =>
     match x.dataTok with
     | some d => do
-      updM d (fun l => .list (listOf l ++ [.int v]))
+      updM d (appendIfList v)
+      pure (n, some x)
+    | none => pure (n, some x)
+  | .setd key v =>
+    match x.dataTok with
+    | some d => do
+      updM d (setIfDict key v)
       pure (n, some x)
     | none => pure (n, some x)
   | .count name => do
@@ -824,5 +966,102 @@ def mkBranches (start : Nat) : List BSpec → List (Branch HSt Skel Value)
 /-- a single accumulator as an object (for the histories of the second sentence of the property) -/
 def accOps (ns : Nat) (k : AccKind) : Ops HSt Skel Value :=
   hOps ns { kind := .fillCompute, steps := [], term := k, srcN := 0 }
+
+/-! ## `Zip` of accumulators as one accumulator (`lena/flow/zip.py`): `_fill`, `_compute`/`_request`,
+`_yield`, `_create_data`, `_create_context` -/
+
+/-- one step of `intersection(..., level=1)` (context/functions.py:394-417): the items of `res` whose key
+is in `d` with an equal value -/
+def interL1 (res d : Ctx) : Ctx :=
+  res.filter (fun kv => match d.lookup kv.1 with
+    | some v' => Value.eqv kv.2 v'
+    | none => false)
+
+/-- `intersection(*dicts, level=1)` on contents (`res = copy.deepcopy(dicts[0])`, then one step per further
+dictionary; an empty `res` is returned at once, which the fold reproduces) -/
+def interAll : List Ctx → Ctx
+  | [] => []
+  | a :: rest => rest.foldl interL1 a
+
+/-- `difference(d1, d2, level=1)` on contents (context/functions.py:83-108): the items of `d1` whose key is not
+in `d2` or has a different value there -/
+def diffL1 (d1 d2 : Ctx) : Ctx :=
+  d1.filter (fun kv => match d2.lookup kv.1 with
+    | some v' => !Value.eqv kv.2 v'
+    | none => true)
+
+/-- `Zip._create_context(values)` on contents (zip.py:79-91): the common context, and under `"zip"` the tuple of
+what every value has beyond it — if anything -/
+def zipContext (values : List Ctx) : Ctx :=
+  let common := interAll values
+  let diffs := values.map (fun v => diffL1 v common)
+  if diffs.any (fun d => !d.isEmpty) then dictSet common "zip" (.tup (diffs.map Value.dict)) else common
+
+/-- state of a `Zip`: its branches, the counter of the deep copies it made, its own allocation counter -/
+structure ZSt where
+  cc : Nat := 0
+  ctr : Nat := 0
+  brs : List (Branch HSt Skel Value) := []
+
+/-- result of pulling one value from `compute()`/`request()` of every branch in turn -/
+structure ZipPull where
+  st : Store Value
+  brs : List (Branch HSt Skel Value)
+  vals : List HItem
+  /-- some branch had nothing to yield: `break_while` -/
+  short : Bool
+  err : Option String
+
+/-- the first round of `Zip._yield` (zip.py:128-135): `val = next(res)` for every branch in order; an exception
+of a branch propagates, an exhausted branch ends the loop -/
+def zipPull (req : Req Skel) : Store Value → List (Branch HSt Skel Value) → ZipPull
+  | st, [] => ⟨st, [], [], false, none⟩
+  | st, b :: rest =>
+    let r := b.ops.act st b.st req
+    match r.2.2.err with
+    | some e => ⟨r.1, { b with st := r.2.1 } :: rest, [], false, some e⟩
+    | none =>
+      match r.2.2.outs.head? with
+      | none => ⟨r.1, { b with st := r.2.1 } :: rest, [], true, none⟩
+      | some y =>
+        let q := zipPull req r.1 rest
+        ⟨q.st, { b with st := r.2.1 } :: q.brs, y :: q.vals, q.short, q.err⟩
+
+/-- the content of the context of a value (`get_data_context`: `{}` for a bare value) -/
+def ctxContent (st : Store Value) (y : HItem) : Ctx :=
+  match y.ctxTok with
+  | some c => ctxOf (st c)
+  | none => []
+
+/-- a method invocation on a `Zip` whose own objects are named in namespace `ns` -/
+def zipAct (ns : Nat) (st : Store Value) (z : ZSt) (r : Req Skel) : Store Value × ZSt × Resp Skel :=
+  match r with
+  | .fill x =>
+    -- for seq in self._sequences: seq.fill(copy.deepcopy(val))
+    let f := zipFill x { st := st, cc := z.cc } z.brs
+    (f.w.st, { z with cc := f.w.cc, brs := f.brs }, { stopped := f.stopped })
+  | .compute | .request =>
+    let p := zipPull r st z.brs
+    match p.err with
+    | some e => (p.st, { z with brs := p.brs }, { err := some e })
+    | none =>
+      if p.short then (p.st, { z with brs := p.brs }, {})
+      else
+        -- data = tuple of the data parts; context = self._create_context(contexts)
+        let data := Value.tup (p.vals.map (fun y => y.skel.data.getD (.str "?")))
+        let content := zipContext (p.vals.map (ctxContent p.st))
+        -- if context: yield (data, context) else: yield data
+        if content.isEmpty then (p.st, { z with brs := p.brs }, { outs := [mkItem data none] })
+        else
+          (p.st.set (ns, z.ctr) (.dict content), { z with ctr := z.ctr + 1, brs := p.brs },
+            { outs := [mkItem data (some (ns, z.ctr))] })
+  | _ => (st, z, {})
+
+/-- `Zip([accumulator, …])` as an object: branch number `i` is the accumulator `ks[i]` -/
+def zipOps (ks : List AccKind) : Ops ZSt Skel Value :=
+  { act := zipAct (ownNs ks.length), refs := fun z => z.brs.flatMap (fun b => b.ops.refs b.st) }
+
+def zipInit (ks : List AccKind) : ZSt :=
+  { brs := mkBranches 0 (ks.map (fun k => { kind := .fillCompute, steps := [], term := k, srcN := 0 })) }
 
 end Lena.C04
